@@ -20,7 +20,7 @@ CHECKS = {
              'under a computed rounding allowance.',
         note=TB + 'Modelled, not verified: torch.linalg.solve/cholesky/lu_factor (exact solve; checked through residuals), '
              'floating-point rounding (absorbed by the allowance of DESIGN 4.3). PSD of the Gram matrix is proved for the Laplace family (0<q<=p<=2); '
-             'for the sum-power kernel it stays an hypothesis of ridge_unique.',
+             'and for the sum-power kernel with a natural power; for a non-integer power it stays an hypothesis of ridge_unique.',
         technique='Lean 4 proof (loop invariant over regenerated program + matrix algebra) + float64 differential check with property oracle',
         ref='DESIGN.md §6 C02'),
     'C03': dict(
